@@ -128,6 +128,8 @@ type sysWalker struct {
 	exp      *oc.Node
 	rawFS    *gen.FS
 	nodes    int
+	bareWh   map[string]bool // directories in which a layer has a file named exactly ".wh."
+	aborted  bool            // a known defect class made the rest of this walk meaningless
 	whPassed int // overlay: whiteouts of a non-merged lower directory shown by readdir, ENOENT on lstat (kernel behaviour)
 	trunc    bool
 }
@@ -155,6 +157,13 @@ func (w *sysWalker) walk(abs, rel string, out *oc.Node, depth int) {
 	}
 	ents, err := f.ReadDir(-1)
 	f.Close()
+	if err != nil && w.bareWh[rel] {
+		// the kernel rejects a dirent with an empty name: same defect, same key as in L2
+		w.violate("lower-view:empty-name-in-listing", fmt.Sprintf("getdents(%q) = %v: a layer of the stack has a file named \".wh.\" here, which is listed with the empty name", rel, errText(err)),
+			map[string]any{"dir": rel, "stage": w.prefix})
+		w.aborted = true
+		return
+	}
 	if err != nil {
 		w.violate(w.prefix+":readdir-error", fmt.Sprintf("readdir %q: %v", rel, errText(err)), map[string]any{"path": rel})
 		return
@@ -309,7 +318,7 @@ func diffKey(prefix string, d oc.Difference) string {
 
 // walkLower walks one mounted FUSE layer and judges it against the expected lower view.
 func walkLower(r *vf.Run, prefix, mp string, mode layer.OverlayOpaqueType, exp *oc.Node, raw *gen.FS, ctx map[string]any) (*oc.Node, bool) {
-	w := &sysWalker{r: r, prefix: prefix, ctx: ctx, lower: true, mode: mode, exp: exp, rawFS: raw}
+	w := &sysWalker{r: r, prefix: prefix, ctx: ctx, lower: true, mode: mode, exp: exp, rawFS: raw, bareWh: bareWhDirs(raw)}
 	var st unix.Stat_t
 	if err := unix.Lstat(mp, &st); err != nil {
 		w.violate(prefix+":root-lstat", errText(err), nil)
@@ -323,6 +332,9 @@ func walkLower(r *vf.Run, prefix, mp string, mode layer.OverlayOpaqueType, exp *
 	}
 	w.opaque(mp, "", root)
 	w.walk(mp, "", root, 0)
+	if w.aborted {
+		return nil, false
+	}
 	if w.trunc {
 		r.Inconclusive("walker bound reached (" + prefix + ")")
 		return nil, false
@@ -367,7 +379,7 @@ func checkStateFileSys(r *vf.Run, prefix, mp, wantDigest string, wantSize int64,
 // kernel stage: FUSE-mount every layer, let the KERNEL's overlayfs merge them
 
 func kernelStage(r *vf.Run) {
-	n := r.N(5, 100)
+	n := r.N(5, 80)
 	reg := memreg.New()
 	envs := map[envKey]*l2.Env{}
 	defer func() {
@@ -465,7 +477,7 @@ func kernelCase(r *vf.Run, ki int, rng *prng.R, env *l2.Env, bs *builtStack, sto
 		return
 	}
 	cl.add(func() { forceUnmount(merged) })
-	w := &sysWalker{r: r, prefix: "kernel-merge", ctx: ctx}
+	w := &sysWalker{r: r, prefix: "kernel-merge", ctx: ctx, bareWh: bareWhDirs(bs.raws...)}
 	var st unix.Stat_t
 	if err := unix.Lstat(merged, &st); err != nil {
 		r.Inconclusive("harness: lstat merged: " + errText(err))
@@ -474,6 +486,9 @@ func kernelCase(r *vf.Run, ki int, rng *prng.R, env *l2.Env, bs *builtStack, sto
 	root := nodeFromStat(&st)
 	root.AttrUnknown = true
 	w.walk(merged, "", root, 0)
+	if w.aborted {
+		return
+	}
 	if w.trunc {
 		r.Inconclusive("walker bound reached (kernel-merge)")
 		return
@@ -609,6 +624,21 @@ func l3Stage(r *vf.Run) {
 			r.NonTrivial("l3|" + bs.hash + "|" + store)
 		}
 	}
+}
+
+// bareWhDirs returns the directories in which one of the tars has a file named exactly ".wh.".
+func bareWhDirs(raws ...*gen.FS) map[string]bool {
+	res := map[string]bool{}
+	for _, fs := range raws {
+		for p, n := range fs.Nodes {
+			if n.Children != nil {
+				if _, ok := n.Children[oc.WhPrefix]; ok {
+					res[p] = true
+				}
+			}
+		}
+	}
+	return res
 }
 
 func hasOpaqueBelowRoot(n *oc.Node) bool {
